@@ -250,6 +250,9 @@ func (s *c05State) step(in ssa.Instruction) {
 				return
 			}
 		}
+		if c05PureCall(u, 0) {
+			return // computes a value, writes nothing: what is known about memory stays known
+		}
 		s.havoc()
 	case *ssa.RunDefers:
 		s.epoch++
@@ -430,7 +433,52 @@ func c05EqEdges(fn *ssa.Function, isA, isB func(v ssa.Value) bool) (eq, ne []Edg
 		case *ssa.Call:
 			if CalleeName(c) == "errors.Is" && len(c.Call.Args) == 2 && isA(c.Call.Args[0]) && isB(c.Call.Args[1]) {
 				eq, ne = append(eq, t), append(ne, f)
+				continue
 			}
+			// a boolean helper that merely wraps the comparison: func isEOF(err error) bool { return err == io.EOF }
+			if x, y, neg, ok := c05BoolHelperCmp(c); ok && ((isA(x) && isB(y)) || (isA(y) && isB(x))) {
+				if neg {
+					eq, ne = append(eq, f), append(ne, t)
+				} else {
+					eq, ne = append(eq, t), append(ne, f)
+				}
+			}
+		}
+	}
+	return
+}
+
+// c05BoolHelperCmp: call is to an in-module helper whose body is a single
+// `return a == b` / `a != b` / `errors.Is(a, b)`; x and y are the compared
+// values with the helper's parameters replaced by the call's arguments.
+func c05BoolHelperCmp(call *ssa.Call) (x, y ssa.Value, negated, ok bool) {
+	h := StaticCallee(call)
+	if h == nil || !inModule(h) || len(h.Blocks) != 1 || h.Signature.Results().Len() != 1 {
+		return
+	}
+	rets := Returns(h)
+	if len(rets) != 1 {
+		return
+	}
+	subst := func(v ssa.Value) ssa.Value {
+		if p, isP := strip(v).(*ssa.Parameter); isP {
+			for i, q := range h.Params {
+				if q == p && i < len(call.Call.Args) {
+					return call.Call.Args[i]
+				}
+			}
+		}
+		return v
+	}
+	switch r := rets[0].Results[0].(type) {
+	case *ssa.BinOp:
+		if r.Op != token.EQL && r.Op != token.NEQ {
+			return
+		}
+		return subst(r.X), subst(r.Y), r.Op == token.NEQ, true
+	case *ssa.Call:
+		if CalleeName(r) == "errors.Is" && len(r.Call.Args) == 2 {
+			return subst(r.Call.Args[0]), subst(r.Call.Args[1]), false, true
 		}
 	}
 	return
@@ -828,4 +876,530 @@ func c05AtomMustPass(a RetAtom, c *cut) bool {
 		return !reach(a.Ret.Parent().Blocks[0], 0, a.Ret, c)
 	}
 	return AtomMustPass(a, c)
+}
+
+// ---------------------------------------------------------------- interprocedural helpers
+//
+// Rules are evaluated on an entry function (the "root") and on the unexported
+// same-package helpers it calls statically (depth <= 3).  A c05Env is one node
+// of that call tree; values are resolved towards the root through parameter
+// passing, and "every path passes X" is decided with helper summaries: a call
+// to a helper counts as passing X when every path through the helper passes X.
+
+type c05Env struct {
+	Fn     *ssa.Function
+	Call   ssa.CallInstruction // the call in Parent.Fn that enters Fn; nil at the root and for closures
+	Parent *c05Env
+}
+
+func c05Root(fn *ssa.Function) *c05Env { return &c05Env{Fn: fn} }
+
+func (e *c05Env) isRoot() bool { return e.Parent == nil }
+
+func (e *c05Env) root() *c05Env {
+	for e.Parent != nil {
+		e = e.Parent
+	}
+	return e
+}
+
+func (e *c05Env) depth() int {
+	n := 0
+	for x := e; x.Parent != nil; x = x.Parent {
+		n++
+	}
+	return n
+}
+
+// c05Helper: the same-package function (with a body) a call enters statically.
+func c05Helper(call ssa.CallInstruction, from *ssa.Function) *ssa.Function {
+	g := StaticCallee(call)
+	if g == nil || g == from || len(g.Blocks) == 0 || !inModule(g) || fnPkgPath(g) != fnPkgPath(from) {
+		return nil
+	}
+	return g
+}
+
+// up resolves v towards the root: a parameter of a helper (or a local copy of
+// it, or a variable captured from an enclosing function on the chain) is
+// replaced by the argument at the call site.  It returns the value and the
+// node in whose function it lives.
+func (e *c05Env) up(v ssa.Value) (ssa.Value, *c05Env) {
+	cur := e
+	for i := 0; i < 12; i++ {
+		w := c05Unspill(v)
+		var p *ssa.Parameter
+		if q, ok := w.(*ssa.Parameter); ok {
+			p = q
+		} else if q := c05ParamOf(v); q != nil {
+			p = q
+		}
+		if p == nil {
+			return w, cur
+		}
+		owner := cur
+		for owner != nil && owner.Fn != p.Parent() {
+			owner = owner.Parent
+		}
+		if owner == nil {
+			return p, cur
+		}
+		if owner.Parent == nil || owner.Call == nil {
+			return p, owner
+		}
+		idx := -1
+		for k, q := range owner.Fn.Params {
+			if q == p {
+				idx = k
+			}
+		}
+		args := owner.Call.Common().Args
+		if idx < 0 || idx >= len(args) {
+			return p, owner
+		}
+		v, cur = args[idx], owner.Parent
+	}
+	return v, cur
+}
+
+// upParam: the root parameter v denotes, or nil.
+func (e *c05Env) upParam(v ssa.Value) *ssa.Parameter {
+	w, at := e.up(v)
+	if p, ok := w.(*ssa.Parameter); ok && at.isRoot() {
+		return p
+	}
+	if at.isRoot() {
+		if p := c05ParamOf(w); p != nil && p.Parent() == at.Fn {
+			return p
+		}
+	}
+	return nil
+}
+
+// c05TreeEnvs lists the root and the helper nodes below it (closures included).
+func c05TreeEnvs(root *c05Env, maxDepth int) []*c05Env {
+	out := []*c05Env{root}
+	var rec func(e *c05Env)
+	rec = func(e *c05Env) {
+		if e.depth() >= maxDepth {
+			return
+		}
+		AllInstrs(e.Fn, func(in ssa.Instruction) {
+			switch x := in.(type) {
+			case ssa.CallInstruction:
+				if h := c05Helper(x, e.Fn); h != nil {
+					onChain := false
+					for a := e; a != nil; a = a.Parent {
+						if a.Fn == h {
+							onChain = true
+						}
+					}
+					if !onChain {
+						ch := &c05Env{Fn: h, Call: x, Parent: e}
+						out = append(out, ch)
+						rec(ch)
+					}
+				}
+			case *ssa.MakeClosure:
+				ch := &c05Env{Fn: x.Fn.(*ssa.Function), Parent: e}
+				out = append(out, ch)
+				rec(ch)
+			}
+		})
+	}
+	rec(root)
+	return out
+}
+
+type c05PassSpec struct {
+	Instr func(in ssa.Instruction, e *c05Env) bool
+	Edges func(e *c05Env) []Edge
+	// Success: the obligation is "every SUCCESSFUL path passes": a helper with
+	// an error result counts when each of its possibly-nil-error returns
+	// passes; at the call site only the err==nil edge of the helper's error
+	// (or returning that error as is) counts as having passed.
+	Success bool
+	// Returned: an error value whose being returned as is means "passed or
+	// failed" (e.g. the result of the verifying call itself).
+	Returned func(v ssa.Value, e *c05Env) bool
+}
+
+// c05PassCut: the instructions/edges of e.Fn that count as "passing": direct
+// matches and calls of helpers every path of which passes.
+func c05PassCut(e *c05Env, sp c05PassSpec) *cut {
+	ct, _ := c05PassCut2(e, sp)
+	return ct
+}
+
+// c05PassCut2 additionally returns the error values whose being returned as
+// they are means "passed or failed" (results of success-mode helpers).
+func c05PassCut2(e *c05Env, sp c05PassSpec) (*cut, map[ssa.Value]bool) {
+	ct := newCut()
+	direct := map[ssa.Value]bool{}
+	AllInstrs(e.Fn, func(in ssa.Instruction) {
+		if sp.Instr != nil && sp.Instr(in, e) {
+			ct.Instr(in)
+			return
+		}
+		call, ok := in.(*ssa.Call)
+		if !ok || e.depth() >= 3 {
+			return
+		}
+		h := c05Helper(call, e.Fn)
+		if h == nil {
+			return
+		}
+		for a := e; a != nil; a = a.Parent {
+			if a.Fn == h {
+				return
+			}
+		}
+		child := &c05Env{Fn: h, Call: call, Parent: e}
+		if sp.Success && ErrResultIndex(h.Signature) >= 0 {
+			if c05SuccessPasses(child, sp) {
+				if ev := ErrOf(call); ev != nil {
+					al := Aliases(ev)
+					ne, _, _ := NilTests(e.Fn, al)
+					ct.Edges(ne...)
+					for a := range al {
+						direct[a] = true
+					}
+				}
+			}
+			return
+		}
+		if c05AlwaysPasses(child, sp) {
+			ct.Instr(in)
+		}
+	})
+	if sp.Edges != nil {
+		ct.Edges(sp.Edges(e)...)
+	}
+	return ct, direct
+}
+
+// c05AlwaysPasses: every path from the entry of e.Fn to a return passes.
+func c05AlwaysPasses(e *c05Env, sp c05PassSpec) bool {
+	ct := c05PassCut(e, sp)
+	if len(ct.instrs) == 0 && len(ct.edges) == 0 {
+		return false
+	}
+	n := 0
+	for _, r := range Returns(e.Fn) {
+		if !ReachableFromEntry(r) {
+			continue
+		}
+		n++
+		if reach(e.Fn.Blocks[0], 0, r, ct) {
+			return false
+		}
+	}
+	return n > 0
+}
+
+// c05SuccessPasses: every return of e.Fn whose error may be nil passes (or
+// hands on the verdict of a helper for which that holds); deferred code cannot
+// clear the error.
+func c05SuccessPasses(e *c05Env, sp c05PassSpec) bool {
+	if ErrResultIndex(e.Fn.Signature) < 0 {
+		return c05AlwaysPasses(e, sp)
+	}
+	ct, direct := c05PassCut2(e, sp)
+	if len(ct.instrs) == 0 && len(ct.edges) == 0 && len(direct) == 0 && sp.Returned == nil {
+		return false
+	}
+	if c05DeferKeepsError(e.Fn) != "" {
+		return false
+	}
+	for _, a := range c05MaybeNilAtoms(e.Fn) {
+		if direct[a.Val] || direct[strip(a.Val)] {
+			continue
+		}
+		if sp.Returned != nil && sp.Returned(a.Val, e) {
+			continue
+		}
+		if !c05AtomMustPass(a, ct) {
+			return false
+		}
+	}
+	return true
+}
+
+func c05CutInstrs(ct *cut) []ssa.Instruction {
+	var out []ssa.Instruction
+	for in := range ct.instrs {
+		out = append(out, in)
+	}
+	return out
+}
+
+// c05SamePlace: two values denote the same thing: identical after resolution,
+// or loads of the same field path of a parameter (index.Manifests read twice).
+func c05SamePlace(a, b ssa.Value) bool {
+	if SameValue(a, b) {
+		return true
+	}
+	pa, pb := c05LoadPath(a), c05LoadPath(b)
+	return pa == pb && strings.HasPrefix(pa, "P:") && strings.HasSuffix(pa, "*")
+}
+
+// c05SliceLoop finds the loop of fn that visits every element of the slice
+// satisfying isS, in any of the forms `for range s`, `for i := range s`,
+// `for i := 0; i < len(s); i++`.  idx are the values that index the current
+// element.
+func c05SliceLoop(fn *ssa.Function, isS func(v ssa.Value) bool) (loop *Loop, idx map[ssa.Value]bool, body Edge) {
+	for _, l := range Loops(fn) {
+		if r, i, b, _, ok := l.RangeIndex(); ok && isS(r) {
+			return l, map[ssa.Value]bool{i: true}, b
+		}
+		h := l.Header
+		if len(h.Instrs) == 0 {
+			continue
+		}
+		ifi, isIf := h.Instrs[len(h.Instrs)-1].(*ssa.If)
+		if !isIf {
+			continue
+		}
+		cond, t, _ := ifEdges(ifi)
+		bo, isBin := cond.(*ssa.BinOp)
+		if !isBin {
+			continue
+		}
+		x, bound := bo.X, bo.Y
+		switch bo.Op {
+		case token.LSS:
+		case token.GTR:
+			x, bound = bo.Y, bo.X
+		default:
+			continue
+		}
+		ln, isLen := bound.(*ssa.Call)
+		if !isLen || CalleeName(ln) != "builtin:len" || !isS(ln.Call.Args[0]) {
+			continue
+		}
+		phi, isPhi := x.(*ssa.Phi)
+		if !isPhi || phi.Block() != h || len(phi.Edges) != 2 {
+			continue
+		}
+		okInit, okStep := false, false
+		for _, ev := range phi.Edges {
+			if k, isK := constInt(ev); isK && k == 0 {
+				okInit = true
+			}
+			if inc, isInc := ev.(*ssa.BinOp); isInc && inc.Op == token.ADD && inc.X == ssa.Value(phi) {
+				if k, isK := constInt(inc.Y); isK && k == 1 {
+					okStep = true
+				}
+			}
+		}
+		if okInit && okStep && l.Blocks[t.To] {
+			return l, map[ssa.Value]bool{phi: true}, t
+		}
+	}
+	return nil, nil, Edge{}
+}
+
+// ---------------------------------------------------------------- verified-copy calls
+
+// c05Copy is a call whose nil error means "src was copied into dst and
+// verified against desc": ioutil.CopyBuffer itself, or a same-package helper
+// whose every possibly-nil-error return lies behind such a call and which
+// passes its own parameters as dst/src/desc.
+type c05Copy struct {
+	Call           ssa.CallInstruction
+	Dst, Src, Desc ssa.Value // values in the calling function
+}
+
+func c05CopyCalls(fn *ssa.Function) []c05Copy { return c05CopyCallsE(c05Root(fn)) }
+
+func c05CopyCallsE(e *c05Env) []c05Copy {
+	var out []c05Copy
+	for _, call := range Calls(e.Fn, func(string) bool { return true }) {
+		if _, isDefer := call.(*ssa.Defer); isDefer {
+			continue
+		}
+		if CalleeName(call) == "~/internal/ioutil.CopyBuffer" {
+			a := call.Common().Args
+			out = append(out, c05Copy{call, a[0], a[1], a[3]})
+			continue
+		}
+		h := c05Helper(call, e.Fn)
+		if h == nil || ErrResultIndex(h.Signature) < 0 || e.depth() >= 3 {
+			continue
+		}
+		onChain := false
+		for a := e; a != nil; a = a.Parent {
+			if a.Fn == h {
+				onChain = true
+			}
+		}
+		if onChain {
+			continue
+		}
+		child := &c05Env{Fn: h, Call: call, Parent: e}
+		sub := c05CopyCallsE(child)
+		if len(sub) == 0 {
+			continue
+		}
+		subRes := map[ssa.Value]bool{}
+		var nilE []Edge
+		for _, sc := range sub {
+			nilE = append(nilE, c05NilEdgesOf(sc.Call)...)
+			if v := sc.Call.Value(); v != nil {
+				for a := range Aliases(v) {
+					subRes[a] = true
+				}
+			}
+		}
+		okSum := c05DeferKeepsError(h) == ""
+		for _, a := range c05MaybeNilAtoms(h) {
+			if subRes[a.Val] || subRes[strip(a.Val)] {
+				continue
+			}
+			if !c05AtomMustPass(a, newCut().Edges(nilE...)) {
+				okSum = false
+			}
+		}
+		if !okSum {
+			continue
+		}
+		// every inner copy must be about the helper's own parameters
+		var cp *c05Copy
+		okMap := true
+		for _, sc := range sub {
+			d, dat := child.up(strip(sc.Dst))
+			sr, sat := child.up(strip(sc.Src))
+			ds, sdt := child.up(sc.Desc)
+			if dat != e || sat != e || sdt != e {
+				okMap = false
+				break
+			}
+			cp = &c05Copy{call, d, sr, ds}
+		}
+		if okMap && cp != nil {
+			out = append(out, *cp)
+		}
+	}
+	return out
+}
+
+var c05PureStd = map[string]bool{"errors.Is": true, "os.IsNotExist": true, "os.IsExist": true, "strings.HasPrefix": true, "strings.HasSuffix": true, "strings.Contains": true}
+
+// c05PureCall: the call only computes a value: a known side-effect free
+// library function, or an in-module function whose body contains no store,
+// map update, send, go/defer and only pure calls.
+func c05PureCall(call ssa.CallInstruction, depth int) bool {
+	if call.Common().IsInvoke() {
+		return false
+	}
+	if c05PureStd[CalleeName(call)] {
+		return true
+	}
+	h := StaticCallee(call)
+	if h == nil || !inModule(h) || len(h.Blocks) == 0 || depth > 2 {
+		return false
+	}
+	pure := true
+	AllInstrs(h, func(in ssa.Instruction) {
+		switch x := in.(type) {
+		case *ssa.Store, *ssa.MapUpdate, *ssa.Send, *ssa.Go, *ssa.Defer, *ssa.RunDefers, *ssa.Panic, *ssa.Select:
+			pure = false
+		case *ssa.Call:
+			if b, ok := x.Call.Value.(*ssa.Builtin); ok {
+				switch b.Name() {
+				case "len", "cap", "min", "max":
+					return
+				}
+			}
+			if !c05PureCall(x, depth+1) {
+				pure = false
+			}
+		}
+	})
+	return pure
+}
+
+// ---------------------------------------------------------------- boolean facts through helpers
+
+// c05BoolFact describes where a boolean fact is decided directly inside a
+// function: the edges on which it is known true / false, and the values that
+// ARE the fact (e.g. the `loaded` result of LoadOrStore).
+type c05BoolFact func(g *ssa.Function) (te, fe []Edge, isVal func(v ssa.Value) bool)
+
+// c05BoolEdges returns the edges of fn on which the fact is true / false:
+// the direct ones, plus those implied by testing a boolean result of a
+// same-package helper whose value determines the fact (`return !loaded`,
+// `return ok`, `if loaded { return false }; return true`, …).
+func c05BoolEdges(fn *ssa.Function, direct c05BoolFact, depth int) (te, fe []Edge) {
+	te, fe, _ = direct(fn)
+	if depth >= 3 {
+		return
+	}
+	for _, call := range Calls(fn, func(string) bool { return true }) {
+		if _, isDefer := call.(*ssa.Defer); isDefer {
+			continue
+		}
+		h := c05Helper(call, fn)
+		if h == nil {
+			continue
+		}
+		hte, hfe := c05BoolEdges(h, direct, depth+1)
+		_, _, isVal := direct(h)
+		for k := 0; k < h.Signature.Results().Len(); k++ {
+			if !types.Identical(h.Signature.Results().At(k).Type(), types.Typ[types.Bool]) {
+				continue
+			}
+			atoms := RetAtoms(h, k)
+			if len(atoms) == 0 {
+				continue
+			}
+			tT, tF, fT, fF := true, true, true, true // r true => fact true / false; r false => fact true / false
+			for _, a := range atoms {
+				pT := len(hte) > 0 && c05AtomMustPass(a, newCut().Edges(hte...))
+				pF := len(hfe) > 0 && c05AtomMustPass(a, newCut().Edges(hfe...))
+				v := a.Val
+				neg := false
+				if u, isNot := v.(*ssa.UnOp); isNot && u.Op == token.NOT {
+					v, neg = u.X, true
+				}
+				switch k := v.(type) {
+				case *ssa.Const:
+					isTrue := (k.Value != nil && k.Value.String() == "true") != neg
+					if isTrue {
+						tT, tF = tT && pT, tF && pF
+					} else {
+						fT, fF = fT && pT, fF && pF
+					}
+				default:
+					if isVal != nil && isVal(v) {
+						if !neg { // r is the fact
+							tF, fT = tF && pF, fT && pT
+						} else { // r is its negation
+							tT, fF = tT && pT, fF && pF
+						}
+						continue
+					}
+					tT, tF, fT, fF = tT && pT, tF && pF, fT && pT, fF && pF
+				}
+			}
+			rk := ResultOf(call, k)
+			if rk == nil {
+				continue
+			}
+			cte, cfe := BoolTests(fn, Aliases(rk))
+			if tT {
+				te = append(te, cte...)
+			}
+			if fT {
+				te = append(te, cfe...)
+			}
+			if tF {
+				fe = append(fe, cte...)
+			}
+			if fF {
+				fe = append(fe, cfe...)
+			}
+		}
+	}
+	return
 }
